@@ -85,34 +85,41 @@ Definition user_icb (k : icb) : Prop := match k with INone | IUser _ => True | _
 Definition small_x (e : env) (x : ev) : Prop :=
   match x with ESend p _ k => len p <= e_max_payload e /\ user_icb k | _ => True end.
 
-Definition wf3_ev (e : env) (M : mnet) (vj : lev3) : Prop :=
-  wf2_ev (m_g M) (fst vj) /\
+(* strict = false drops "processing raises no exception" (used to show that it cannot be dropped) *)
+Definition msg_ev (strict : bool) (e : env) (M : mnet) (vj : lev3) : Prop :=
   match fst (fst vj) with
   | NA x => small_x e x
   | NB x => forall d, accepts (nB (g_net (m_g M))) x = Some d ->
               length (snd vj) = length (dg_msgs d) /\ mwf (m_st M) (combine (dg_msgs d) (snd vj)) /\
-              raised (snd (step e (nB (g_net (m_g M))) x)) = false
+              (strict = true -> raised (snd (step e (nB (g_net (m_g M))) x)) = false)
   end.
 
-Fixpoint wf3_run (e : env) (M : mnet) (vs : list lev3) : Prop :=
+Definition wf3x_ev (strict : bool) (e : env) (M : mnet) (vj : lev3) : Prop :=
+  wf2_ev (m_g M) (fst vj) /\ msg_ev strict e M vj.
+
+Fixpoint wf3x_run (strict : bool) (e : env) (M : mnet) (vs : list lev3) : Prop :=
   match vs with
   | [] => True
-  | v :: r => wf3_ev e M v /\ wf3_run e (mstep e M v) r
+  | v :: r => wf3x_ev strict e M v /\ wf3x_run strict e (mstep e M v) r
   end.
 
-(* the same without "processing raises no exception": used to show that it cannot be dropped *)
-Definition noraise_free_ev (e : env) (M : mnet) (vj : lev3) : Prop :=
-  wf2_ev (m_g M) (fst vj) /\
-  match fst (fst vj) with
-  | NA x => small_x e x
-  | NB x => forall d, accepts (nB (g_net (m_g M))) x = Some d ->
-              length (snd vj) = length (dg_msgs d) /\ mwf (m_st M) (combine (dg_msgs d) (snd vj))
-  end.
-Fixpoint noraise_free_run (e : env) (M : mnet) (vs : list lev3) : Prop :=
+(* the message-level part alone *)
+Fixpoint msg_run (strict : bool) (e : env) (M : mnet) (vs : list lev3) : Prop :=
   match vs with
   | [] => True
-  | v :: r => noraise_free_ev e M v /\ noraise_free_run e (mstep e M v) r
+  | v :: r => msg_ev strict e M v /\ msg_run strict e (mstep e M v) r
   end.
+
+Definition wf3_ev := wf3x_ev true.
+Definition wf3_run := wf3x_run true.
+Definition noraise_free_run := wf3x_run false.
+
+(* the joint state M with B replaced (used to exhibit a state for the counterexample) *)
+Definition with_B (M : mnet) (b : conn) : mnet :=
+  let G := m_g M in let n := g_net G in
+  {| m_g := {| g_net := {| nA := nA n; nB := b; wAB := wAB n; wBA := wBA n; sentA := sentA n; dlvB := dlvB n |};
+               g_nA := g_nA G; g_AB := g_AB G; g_B := g_B G; g_accB := g_accB G; g_BA := g_BA G |};
+     m_sent := m_sent M; m_st := m_st M |}.
 
 (* what a success callback id stands for on the sender: the user callback itself (unretried or
    best-effort send) or the RetrySender that wraps it (guaranteed send) *)
